@@ -227,6 +227,30 @@ func buildPool(root string, seed uint64, corrupt, churn, large int) error {
 			family: int32(len(p.inputs)), class: clsLarge})
 	}
 
+	// views: prefixes that SHARE MEMORY with the text they are cut from (Go substrings: same
+	// start address, other length), same paths - what a caller does who parses pieces of one
+	// buffer (SplitRawStatements hands out such substrings), and what a cache keyed by the
+	// identity of the buffer confuses
+	nIn := len(p.inputs)
+	for i := 0; i < nIn; i++ {
+		src := p.inputs[i]
+		if !(src.class == clsLarge || src.class == clsCorpus && i%4 == 0) || len(src.text) < 8 {
+			continue
+		}
+		spans := tokenSpans(src.text)
+		if len(spans) < 4 {
+			continue
+		}
+		for _, frac := range []int{2, 7} {
+			cut := spans[len(spans)*frac/8].hi
+			if cut <= 0 || cut >= len(src.text) {
+				continue
+			}
+			e := src.entry
+			p.inputs = append(p.inputs, input{text: src.text[:cut], origin: "view:" + src.origin, entry: e, paths: src.paths, family: src.family, class: clsSibling})
+		}
+	}
+
 	add := func(k opKey) {
 		if !variantApplies(int(k.Entry), int(k.Variant)) {
 			return
@@ -619,9 +643,14 @@ func largeText(r *rng, n int, inputs []input, corpus []int) (string, int) {
 		b.WriteString(strings.Repeat(">", d))
 		return b.String(), eParseType
 	case 4: // long identifier, string, bytes and raw literals: two of them 17-48 KB, the others 2-8 KB
+		first := true
 		sz := func(big bool) int {
-			if big {
+			if big && first {
+				first = false
 				return 17<<10 + r.intn(31<<10)
+			}
+			if big {
+				return 66<<10 + r.intn(34<<10) // past a 64 KiB threshold too
 			}
 			return 2<<10 + r.intn(6<<10)
 		}
